@@ -44,8 +44,6 @@ pub proof fn pf_token_text(n: &SyntaxNode)
     requires tree_wf(n),
     ensures
         fixed_text(n.kind_s()) matches Some(t) ==> n.text_s() == t,
-        // a keyword / operator / identifier / literal token is neither blank nor optional punctuation
-        !is_inner_kind(n.kind_s()) && !is_ws_kind(n.kind_s()) && fixed_text(n.kind_s()) is None ==> !is_blank(n.text_s()) && !is_opt_punct(n.text_s()) && !(n.text_s() =~= seq!['(', ':']),
 {}
 /// no `@typstyle off` mark at or below the node (with marks, the marked subtree is emitted verbatim: C07, not W)
 pub uninterp spec fn unmarked(store: AttrStore, n: &SyntaxNode) -> bool;
